@@ -52,9 +52,17 @@ V9SetFindings(km, os, es) ==
     IN {<<"C04", "v9.odata", "value", "scope">> : j \in badS} \cup {<<"C04", "v9.odata", "value", "option">> : j \in badO}
   ELSE {}
 
+\* V9 field types at or above 32768 belong to no registry the library could know (the enterprise bit is an
+\* IPFIX notion): whatever type number was sent, such a field is opaque
+V9HighTypeFindings(os) ==
+  IF os.k = "tmpl" /\ \E r \in 1..Len(os.recs) : \E j \in 1..Len(os.recs[r].fields) :
+        os.recs[r].fields[j].t >= 32768 /\ os.recs[r].fields[j].kind # "Unknown"
+    THEN {<<"C04", "v9.tmpl", "field-kind", "type-above-32767-not-opaque">>} ELSE {}
+
 V9ItemFindings(km, oi, ei) ==
   (IF \E n \in {"sys_up_time", "unix_secs", "seq", "source_id"} : oi.hdr[n] # ei.hdr[n]
      THEN {<<"C04", "v9.hdr", "field", "">>} ELSE {})
+  \cup UNION {V9HighTypeFindings(oi.sets[s]) : s \in 1..Len(oi.sets)}
   \cup UNION {V9SetFindings(km, oi.sets[s], ei.sets[s]) : s \in 1..Len(ei.sets)}
 
 \* C05: the same for IPFIX; value (r, j) of the observed set is entry (r-1)*F + j of its maps
@@ -260,8 +268,13 @@ Unexplained(km, out, ideal, allow) ==
   LET eout == ideal.out
       n == Max2(Len(out), Len(eout))
       i == FirstIdx(n, LAMBDA q : q > Len(out) \/ q > Len(eout) \/ ~ItemMatch(km, out[q], eout[q]))
+      n0 == Len(eout)
+      \* C07: "earlier packets in the same buffer are still reported" when the buffer ends in unknown-template data
+      c07 == IF i # 0 /\ n0 > 0 /\ eout[n0].k = "err" /\ eout[n0].why = "unknown-template" /\ i < n0
+               THEN {<<"C07", "v9", "unknown-template", "earlier-items">>} ELSE {}
   IN IF i = 0 THEN {}
-     ELSE IF i > Len(eout) THEN
+     ELSE c07 \cup
+     IF i > Len(eout) THEN
        (IF ideal.stop = "unallowed" THEN {<<"C12", "filter", "reported-after-disallowed", KindAt(out, i)>>}
         ELSE {<<"C02", "framing", "extra-item", KindAt(out, i)>>})
      ELSE LET ei == eout[i]  ok == KindAt(out, i) IN
